@@ -205,6 +205,12 @@ def kDs : Nat := 0
 def kGdf : Nat := 1
 def kLine : Nat := 2
 def kDims : Nat := 4
+def kPoly : Nat := 3
+def kBall : Nat := 5
+def kKd : Nat := 6
+/-- inside a cached helper object (`BallTree`, `KDTree`): the reference back to the grid it was
+    built from (`_source_grid`) -/
+def kSrc : Nat := 0
 /-- key of variable `v` inside a Dataset cell -/
 def kVar (v : Nat) : Nat := v + 1
 
@@ -353,6 +359,44 @@ def prefixAct (k : Nat) : Act → Act
 
 /-- actions of a mutator on a GRID root (everything goes through `_ds`) -/
 def Mut.actsGrid (m : Mut) : List Act := m.actsDs.map (prefixAct kDs)
+
+/-! ### lazily filled caches of a grid (`_ball_tree`, `_kd_tree`, cached GeoDataFrame / collections, …)
+
+  Everything `Grid.__init__` sets to `None` and a later call fills is a field of the Grid cell.  A helper
+  object such as `BallTree` keeps a reference BACK to its grid and is switched in place by
+  `get_ball_tree(coordinates=…)`. -/
+
+inductive CacheOp
+  /-- first `get_ball_tree()` / `to_geodataframe()` …: a new helper object referring back to its grid -/
+  | fill (k : Nat) (d : List Int)
+  /-- `get_ball_tree(coordinates=…)` on an existing tree: the SAME object answers for another kind -/
+  | switch (k : Nat) (d : List Int)
+  | drop (k : Nat)
+deriving Repr
+
+def CacheOp.acts : CacheOp → List Act
+  | .fill k d => [.fresh [] k d [(kSrc, [])]]
+  | .switch k d => [.write [k] d]
+  | .drop k => [.unlink [] k]
+
+/-- everything the public API can do to a grid: mutate its dataset or fill / switch / drop a cache -/
+inductive GridOp
+  | mut (m : Mut)
+  | cache (c : CacheOp)
+deriving Repr
+
+def GridOp.acts : GridOp → List Act
+  | .mut m => m.actsGrid
+  | .cache c => c.acts
+
+/-- **seeded regression** (`copy()` handing over helper objects that were already built, e.g.
+    `grid._ball_tree = self._ball_tree`): the copy's cell also refers to the original's caches `keys`. -/
+def copyGridHandOver (h : Heap) (g : Nat) (keys : List Nat) : Heap × Nat :=
+  match h[g]?, field h g kDs, field h g kDims with
+  | some c, some ds, some dm =>
+    (dup h ++ [⟨c.data, [(kDs, ds + h.length), (kDims, dm + h.length)] ++
+        c.refs.filter (fun p => keys.contains p.1 && p.1 != kDs && p.1 != kDims)⟩], 2 * h.length)
+  | _, _, _ => (h, g)
 
 
 /-! ### which heap operation each public call IS (the model of the code, as-is and repaired) -/
